@@ -119,6 +119,7 @@ def corr_sequences(ck, rng):
         L = int(rng.integers(1, maxlen + 1))
         identity_ok = True          # copy=False returns the same instance, copy=True a new one
         cur = mol
+        ref_p, ref_M = p0.astype(float).copy(), R[r0].astype(float).copy()      # independent running pose (numpy), same conventions as the property text
         for _ in range(L):
             k = int(rng.integers(0, 6))
             # in-place variant (copy=False) once the running value is no longer the original object
@@ -158,6 +159,13 @@ def corr_sequences(ck, rng):
                 v = rng.integers(-8, 9, size=3) / 4.0
                 cur = cur.linear_transform(v[None], Rotation.from_matrix(R[i][None].astype(float)))
                 ops.append(["linear_transform", v.tolist(), i]); terms.append(f"OLin Q {vlit(v)} {mlit(R[i])}")
+            last = ops[-1]
+            if last[0] == "translate": ref_p = ref_p + np.array(last[1])
+            elif last[0] == "translate_internal": ref_p = ref_p + ref_M @ np.array(last[1])
+            elif last[0] in ("rotate_by", "rotate_by_rotvec"): ref_M = R[last[1]].astype(float) @ ref_M
+            elif last[0] == "rotate_by_rotvec_internal": ref_M = ref_M @ R[last[1]].astype(float)
+            elif last[0] == "linear_transform":
+                ref_p = ref_p + ref_M @ np.array(last[1]); ref_M = ref_M @ R[last[2]].astype(float)
             if k != 5 and (cur is prev) != (not cp):
                 identity_ok = False
             # derived views (rotation matrix, affine matrices) are read between operations and must follow every later (in-place) change
@@ -172,6 +180,11 @@ def corr_sequences(ck, rng):
         untouched = np.array_equal(mol.pos, orig_pos) and np.allclose(mol.rotator.as_matrix(), orig_mat)
         M = cur.rotator.as_matrix()[0]
         axes_ok = (np.allclose(cur.z[0], M @ [1, 0, 0]) and np.allclose(cur.y[0], M @ [0, 1, 0]) and np.allclose(cur.x[0], M @ [0, 0, 1]))
+        ck.oracle_count("sequence_reference_pose", 1, 1)
+        if np.abs(cur.pos[0] - ref_p).max() > 1e-4 or np.abs(M - ref_M).max() > 1e-5:
+            ck.violation(what=f"after {[o_[0] for o_ in ops]} the molecule is at {np.round(cur.pos[0], 4).tolist()} (expected {np.round(ref_p, 4).tolist()}), "
+                              f"orientation error {np.abs(M - ref_M).max():.3g}", inp={"p0": p0.tolist(), "r0": r0, "ops": ops},
+                         key={"site": "sequence-reference", "last_op": ops[-1][0]}, oracle="sequence_reference_pose")
         term = (f"(check_seq {vlit(p0)} {mlit(R[r0])} {lst(terms)} {vlit(cur.pos[0])} {mlit(M)} "
                 f"{vlit(cur.z[0])} {vlit(cur.y[0])} {vlit(cur.x[0])} {bl(untouched and axes_ok and identity_ok)})")
         cases.append((term, {"p0": p0.tolist(), "r0": r0, "ops": ops, "final_pos": cur.pos[0].tolist(), "untouched": bool(untouched)}))
@@ -301,6 +314,27 @@ def oracle_repr(ck, rng):
                          key=from_axes_key(Ms[bad[0]], "zy", batch=True), oracle="from_axes")
 
 
+def oracle_euler_batches(ck, rng):
+    """per-molecule Euler angles: row i of a batch gives the orientation that the same angles give for a single molecule"""
+    from acryo import Molecules
+    for it in range(4 if ck.tier == "quick" else 40):
+        nb = int(rng.integers(2, 6))
+        seq = ["ZXZ", "zyx", "xyz", "ZYX", "yxz"][it % 5]
+        deg = bool(it % 2)
+        ang = rng.uniform(-80, 80, size=(nb, 3)) if deg else rng.uniform(-1.4, 1.4, size=(nb, 3))
+        pos = np.zeros((nb, 3))
+        for order_ in ("xyz", "zyx"):
+            ck.oracle_count("euler_batches", 1, 1)
+            batch = Molecules.from_euler(pos, ang, seq=seq, degrees=deg, order=order_).rotator.as_matrix()
+            single = np.stack([Molecules.from_euler(pos[:1], ang[j:j + 1], seq=seq, degrees=deg, order=order_).rotator.as_matrix()[0] for j in range(nb)])
+            rot = Molecules(pos).rotate_by_euler_angle(ang, seq=seq, degrees=deg, order=order_).rotator.as_matrix()
+            bad = [j for j in range(nb) if not (np.allclose(batch[j], single[j], atol=1e-9) and np.allclose(rot[j], single[j], atol=1e-6))]
+            if bad:
+                ck.violation(what=f"from_euler / rotate_by_euler_angle(seq={seq}, order={order_}, degrees={deg}) on {nb} molecules: rows {bad} differ from the "
+                                  f"orientation the same angles give for a single molecule", inp={"angles": ang.tolist(), "seq": seq, "order": order_, "degrees": deg},
+                             key={"site": "euler-batch", "order": order_}, oracle="euler_batches")
+
+
 def oracle_from_axes_batches(ck, rng):
     """batches of generic molecules given by axes that are neither unit length nor exactly perpendicular: the first-named axis keeps its
     direction, the second is orthogonalised against it, and every row is independent of its batch-mates"""
@@ -365,6 +399,7 @@ def run(ck: common.Check):
     corr_affine_coords(ck, rng)
     oracle_repr(ck, rng)
     oracle_from_axes_batches(ck, np.random.default_rng(ck.seed + 111111))
+    oracle_euler_batches(ck, np.random.default_rng(ck.seed + 112112))
 
 
 def replay(data):
